@@ -169,6 +169,49 @@ func scripts(r *vh.RNG) {
 	}
 }
 
+// scriptPairs: the script-taking constructors called back to back on two DIFFERENT scripts that agree in length,
+// in their first and in their last bytes (e.g. two multisig redeem scripts with the same first and last key), in
+// every order of constructors: each result must be the hash of the script it was given, not of the one before.
+func scriptPairs(r *vh.RNG) {
+	ctors := []int{al.CtorSHScript, al.CtorSH32Script, al.CtorLegSHScript}
+	for i := 0; i < cfg.Scale(6, 30); i++ {
+		n := []int{33, 40, 64, 71, 105, 200}[i%6]
+		head := 1 + r.Intn(n/2)
+		tail := 1 + r.Intn(n-head-1)
+		if i%2 == 0 {
+			head, tail = n/2-1, n-n/2 // differ in one byte only
+			if head > 16 && tail > 16 && i%4 == 0 {
+				head, tail = 16, 16
+			}
+		}
+		a := r.Bytes(n)
+		b := append([]byte(nil), a...)
+		for j := head; j < n-tail; j++ {
+			b[j] ^= byte(1 + r.Intn(255))
+		}
+		net := i % len(al.Nets)
+		for _, c1 := range ctors {
+			for _, c2 := range ctors {
+				for _, pair := range [][2][]byte{{a, b}, {b, a}} {
+					al.Construct(c1, pair[0], net)
+					x, err, _ := al.Construct(c2, pair[1], (net+1)%len(al.Nets))
+					o := al.Observe(x, err)
+					rep.Count("script:pair", fmt.Sprintf("p%d/%d/%x/%x", c1, c2, pair[0], pair[1]), true)
+					want := al.Hash160(pair[1])
+					if c2 == al.CtorSH32Script {
+						want = al.Sha256d(pair[1])
+					}
+					if o.Cls != 0 || !bytes.Equal(o.Payload, want) {
+						rep.Violate("C01:script:"+al.CtorNames[c2], "script constructor does not hash as RIPEMD160(SHA256(script)) / SHA256(SHA256(script))",
+							map[string]interface{}{"history": al.CtorNames[c1] + "(previous_script) and then " + al.CtorNames[c2] + "(script)", "previous_script": vh.Hex(pair[0]), "script": vh.Hex(pair[1]),
+								"constructor": al.CtorNames[c2], "required_payload": vh.Hex(want), "observed": o.JSON()})
+					}
+				}
+			}
+		}
+	}
+}
+
 type keyTriple struct {
 	u, c, h []byte
 	family  string
@@ -219,6 +262,21 @@ func pubkeys(r *vh.RNG) {
 			if want := al.RefBase58Check(al.Nets[net].P.LegacyPubKeyHashAddrID, al.Hash160(ser)); o.Enc != want {
 				rep.Violate("C01:spec:PubKey", "EncodeAddress() of a public key is not Base58Check(pkh id, HASH160(serialisation))",
 					map[string]interface{}{"serialized": hx, "family": k.family, "net": al.Nets[net].Name, "encode_address": o.Enc, "specification": want})
+			}
+			// the same string asked for on the next network right afterwards belongs to that one (a public key
+			// carries no network of its own), and asking the first network again gives the first answer
+			for _, s := range []string{hx, al.AsciiUpper(hx)} {
+				other := (net + 1) % len(al.Nets)
+				_, g1 := al.Decode(s, net)
+				_, g2 := al.Decode(s, other)
+				_, g3 := al.Decode(s, net)
+				rep.Count("decode:PubKey:two-nets", "x"+s, true)
+				if g1.Cls != 0 || g2.Cls != 0 || g3.Cls != 0 || !g1.Nets[net] || !g2.Nets[other] || !g3.Nets[net] || g1.Enc != g3.Enc ||
+					g2.Enc != al.RefBase58Check(al.Nets[other].P.LegacyPubKeyHashAddrID, al.Hash160(ser)) {
+					rep.Violate("C01:roundtrip:PubKey", "a public-key string decoded on two networks in turn does not report membership of the network asked for each time",
+						map[string]interface{}{"serialized": hx, "family": k.family, "string": s, "first_net": al.Nets[net].Name, "second_net": al.Nets[other].Name,
+							"first": g1.JSON(), "second": g2.JSON(), "first_again": g3.JSON()})
+				}
 			}
 			for _, s := range []string{hx, al.AsciiUpper(hx)} {
 				_, got := al.Decode(s, net)
@@ -310,6 +368,19 @@ func main() {
 	for net := range al.Nets {
 		for _, ks := range kinds {
 			hs := al.InterestingHashes(rk, ks.hashLen, nrand)
+			if ks.legacy {
+				// hashes solved for so that the Base58Check string has a run of zero digits ('1') in its interior
+				// (whole 10-digit chunks that are zero, and runs straddling chunk boundaries)
+				id := al.Nets[net].P.LegacyPubKeyHashAddrID
+				if ks.ctor == al.CtorLegSH {
+					id = al.Nets[net].P.LegacyScriptHashAddrID
+				}
+				for _, run := range [][2]int{{10, 20}, {20, 30}, {10, 30}, {9, 19}, {11, 21}, {6, 32}, {15, 25}} {
+					if body := al.ZeroDigitRunBody(rk, id, 21, run[0], run[1]); body != nil {
+						hs = append(hs, body[1:])
+					}
+				}
+			}
 			for hi, h := range hs {
 				var corr []string
 				if !cfg.Search {
@@ -325,6 +396,7 @@ func main() {
 		}
 	}
 	scripts(root.Fork("scripts"))
+	scriptPairs(root.Fork("script-pairs"))
 	pubkeys(root.Fork("pubkeys"))
 
 	if !cfg.Search {
